@@ -107,6 +107,17 @@ CHECKS = {
         note="Trusted: Lean kernel, T2 (syntactic translator), Py/Int.lean as a model of CPython int arithmetic (K4-sampled).",
         technique="Lean 4 proof over Int (omega / core Int lemmas) about a term regenerated from the source",
         design="6 C06"),
+    "C19": dict(
+        text="Lean theorems for all texts and line numbers (`lineInfo_exact`: offset/length delimit exactly the line, last line "
+             "included; `intern_*`: to_index returns an equal entry and keeps earlier indices; `resolve_user`: the frame walk returns "
+             "the innermost frame outside the package) and `frames_user` / `call_sites_covered` (decide +kernel) over the table "
+             "regenerated by running a catalogue of every DSL entry point from a user file (T4). Partial: frame objects are runtime; the "
+             "catalogue is re-run from three file names in one process and try_get_line_info is compared with the Lean lineInfo on random "
+             "texts on every run.",
+        note="Trusted: Lean kernel, T4 (dynamic catalogue run; all syntactic back_frame() call sites must be reached), CPython frame "
+             "semantics; Runtime/SourceRef.lean is a hand-written model of source_ref.py, diffed against it on random texts.",
+        technique="Lean 4 proof (induction over lines / frames) + kernel-decided regenerated frame table",
+        design="6 C19"),
 }
 
 
